@@ -188,6 +188,10 @@ type Blockchain struct {
 	// removal (performed in storeBlock()) with transfer/MPT GC (tryRunGC())
 	gcBlockTimes *lru.Cache[uint32, uint64]
 
+	// poolFees are the fee settings mempooled transactions were checked
+	// against the last time, protected by lock.
+	poolFees poolFees
+
 	// gcLastUntraceableBlockHeight is the height of the latest untraceable block
 	// that was removed by GC. Storing this value is cheaper than performing Seek
 	// through all blocks every time we need to define the next header to be
@@ -2183,7 +2187,16 @@ func (bc *Blockchain) storeBlock(block *block.Block, txpool *mempool.Pool) error
 	bc.stateRoot.UpdateCurrentLocal(mpt, sr)
 	bc.topBlock.Store(block)
 	atomic.StoreUint32(&bc.blockHeight, block.Index)
-	bc.memPool.RemoveStale(func(tx *transaction.Transaction) bool { return bc.IsTxStillRelevant(tx, txpool, false) }, bc)
+	// Fee settings can be changed by the block that has just been processed,
+	// pooled transactions were checked against the old ones.
+	var (
+		fees        = bc.currentPoolFees()
+		recheckFees = fees != bc.poolFees
+	)
+	bc.poolFees = fees
+	bc.memPool.RemoveStale(func(tx *transaction.Transaction) bool {
+		return bc.IsTxStillRelevant(tx, txpool, false) && (!recheckFees || bc.isTxFeeStillSufficient(tx))
+	}, bc)
 	for _, f := range bc.postBlock {
 		f(bc.IsTxStillRelevant, txpool, block)
 	}
@@ -3197,6 +3210,37 @@ func (bc *Blockchain) IsTxStillRelevant(t *transaction.Transaction, txpool *memp
 		return bc.verifyTxWitnesses(t, nil, isPartialTx) == nil
 	}
 	return true
+}
+
+// poolFees is the set of fee-related Policy settings that network fee of a
+// mempooled transaction is checked against.
+type poolFees struct {
+	feePerByte int64
+	execFee    int64
+	attributes [5]int64
+}
+
+// currentPoolFees returns current fee-related Policy settings.
+func (bc *Blockchain) currentPoolFees() poolFees {
+	var res = poolFees{
+		feePerByte: bc.FeePerByte(),
+		execFee:    bc.GetBaseExecFee(),
+	}
+	for i, t := range []transaction.AttrType{transaction.HighPriority, transaction.OracleResponseT, transaction.NotValidBeforeT, transaction.ConflictsT, transaction.NotaryAssistedT} {
+		res.attributes[i] = bc.policy.GetAttributeFeeInternal(bc.dao, t)
+	}
+	return res
+}
+
+// isTxFeeStillSufficient checks that network fee of the mempooled transaction
+// still covers its size, attributes and witness verification after the change
+// of fee-related Policy settings.
+func (bc *Blockchain) isTxFeeStillSufficient(t *transaction.Transaction) bool {
+	netFee := t.NetworkFee - int64(t.Size())*bc.FeePerByte() - bc.CalculateAttributesFee(t)
+	if netFee < 0 {
+		return false
+	}
+	return bc.verifyTxWitnesses(t, nil, false, netFee) == nil
 }
 
 // VerifyTx verifies whether transaction is bonafide or not relative to the
